@@ -185,7 +185,7 @@ func runC14live(c string) string {
 			mu.Unlock()
 			if victim != nil {
 				mgr.Sys.Kill(victim.Machine)
-				for i := 0; i < 600; i++ {
+				for i := 0; i < 1500; i++ {
 					if _, _, _, h := exec.VerifMachInfo(victim); h == 2 {
 						break
 					}
